@@ -241,6 +241,9 @@ func c05check(run *vlab.Run, frame []byte, w *c05want, r c05req, st *c05stats) {
 			if int(u.Length) != len(tp) {
 				bad("udp-len", "UDP length field %d, datagram payload %d", u.Length, len(tp))
 			}
+			if u.Checksum == 0xffff && u.ChecksumOK {
+				run.Count("udp_checksums_that_computed_to_zero", 1)
+			}
 			if !u.ChecksumOK || u.Checksum == 0 {
 				bad("udp-checksum", "UDP checksum %#04x wrong or absent", u.Checksum)
 			}
@@ -443,6 +446,11 @@ func TestVerifC05Fillers(t *testing.T) {
 	jobs = append(jobs, job{udp.NewPacketFiller(), &c05want{Kind: "udp", TTL: 64, IPFlags: 2, Proto: 17, Via: "defaults"}, 50})
 	jobs = append(jobs, job{icmp.NewPacketFiller(), &c05want{Kind: "icmp", TTL: 64, IPFlags: 2, Proto: 1, Type: 8, AnyPayload: true, Via: "defaults"}, 50})
 	jobs = append(jobs, job{arp.NewPacketFiller(), &c05want{Kind: "arp", Via: "defaults"}, run.Pick(300, 5000)})
+	// volume: a computed UDP checksum of zero (one frame in 65536) must go out as ffff, never as 0000 = "no checksum"
+	for k := 0; k < 32; k++ {
+		pl := []byte{byte(rng.Intn(256)), byte(rng.Intn(256))}
+		jobs = append(jobs, job{udp.NewPacketFiller(udp.WithPayload(pl)), &c05want{Kind: "udp", TTL: 64, IPFlags: 2, Proto: 17, Payload: pl, PayLen: 2, Via: "volume"}, run.Pick(12000, 100000)})
+	}
 
 	for i, j := range jobs {
 		if !run.Mine(i) {
